@@ -1,14 +1,83 @@
-import RV.Proofs.TreeNode
-import RV.Model.TreeFile
+import RV.Proofs.TreeFileFree
 /-!
 # C16 — A persistent z.Tree reopens to the same contents
 
 Property theorems only.  `encode` / `reinit` are in `RV/Model/TreeFile.lean`; the loop
-bound of `reinit`, the `pageID() == 0` test and the free-list-head computation call kernels
-regenerated from z/btree.go on every run.
+bound of `reinit`, the `pageID() == 0` test, the `nextPageId != 0` test and the layout kernels
+are regenerated from z/btree.go on every run.  `TreeInv` / `PidInv` are the invariants of C10
+(`RV/Props/C10.lean` proves that every operation preserves them).
 -/
 namespace RV.C16
 open RV.Tree Gen.Tree
+
+/-- the maintained statistics agree with the structure (what `reinit` recounts) -/
+def StatsOk (t : Tree) : Prop :=
+  t.a.leafKeys = countLeafKeys t.root ∧ t.a.pagesFree = t.a.free.length
+
+/-- **`c16_roundtrip`** — for every tree satisfying the invariants (hence after every history,
+including recycled pages), whose root is page 1 and whose pages fit the file (`FileOk`: the code
+grows the buffer before it uses a page; sizes fit a Go `int`): `reinit` of the file it leaves
+behind succeeds and yields the same labelled tree, the same frontier, the same free list — head
+**and order** — and the recounted statistics; the mapped size becomes the file size. -/
+theorem c16_roundtrip (cfg : Cfg) (hc : CfgOk cfg) (t : Tree) (hinv : TreeInv cfg t) (hp : PidInv t)
+    (hroot : t.root.pid = 1) (hf : FileOk cfg t) :
+    reinit cfg (encode t) = some (reopened t) ∧
+    (reopened t).root = t.root ∧ (reopened t).a.nextPage = t.a.nextPage ∧ (reopened t).a.free = t.a.free ∧
+    (reopened t).a.leafKeys = countLeafKeys t.root ∧ (reopened t).a.pagesFree = t.a.free.length ∧
+    (reopened t).a.dataLen = t.a.curSz - 8 ∧ (reopened t).a.curSz = t.a.curSz :=
+  ⟨reinit_encode hc t hinv hp hroot hf, rfl, rfl, rfl, rfl, rfl, rfl, rfl⟩
+
+/-- `NewTreePersistent` on that file takes the `reinit` branch (page 1 is initialised). -/
+theorem c16_open_is_reinit (cfg : Cfg) (t : Tree) (hroot : t.root.pid = 1) (hnull : t.root ≠ .null) :
+    openFile cfg (encode t) = reinit cfg (encode t) := by
+  have hmem : 1 ∈ pids t.root := by rw [← hroot]; exact pid_mem_pids hnull
+  obtain ⟨l, es, e⟩ := findNode_some t.root 1 hmem
+  unfold openFile encode
+  have h1 : (w 1 != 0#64) = true := by decide
+  simp only [encodePage, e, Page.pageId, isInitialized, h1, if_true]
+
+/-- With statistics that agree with the structure (`StatsOk`), the reopened tree is the tree
+that was closed, up to the mapped size: same key-count and page statistics, same mapping. -/
+theorem c16_roundtrip_same_stats (cfg : Cfg) (hc : CfgOk cfg) (t : Tree) (hinv : TreeInv cfg t)
+    (hp : PidInv t) (hroot : t.root.pid = 1) (hf : FileOk cfg t) (hs : StatsOk t) (hfault : t.a.fault = none) :
+    ∃ t', reinit cfg (encode t) = some t' ∧ t'.root = t.root ∧ t'.a = { t.a with dataLen := t.a.curSz - 8 } ∧
+      (∀ k, abs t' k = abs t k) ∧
+      stats cfg t' = { stats cfg t with allocated := t.a.curSz - 8 } := by
+  refine ⟨_, (c16_roundtrip cfg hc t hinv hp hroot hf).1, rfl, ?_, fun _ => rfl, ?_⟩
+  · obtain ⟨h1, h2⟩ := hs
+    unfold reopened
+    cases ha : t.a with
+    | mk np fr lk pf dl cs fa =>
+      rw [ha] at h1 h2 hfault
+      simp only at h1 h2 hfault
+      simp [h1, h2, hfault]
+  · obtain ⟨h1, h2⟩ := hs
+    simp [stats, reopened, h1, h2]
+
+/-- **`c16_continues`** — the reopened tree satisfies the invariants of C10 again, so all of
+C10's theorems apply to it: it keeps behaving as a correct map (`c10_get_set`, `c10_delete_below`,
+`c10_iterate`, `c10_abs` from this state), the pages on the reconstructed free list are reused
+by `newNode` (`PidInv` is preserved by every operation: a page is never live twice, never both
+live and free, never lost). -/
+theorem c16_continues (cfg : Cfg) (hc : CfgOk cfg) (t : Tree) (hinv : TreeInv cfg t) (hp : PidInv t)
+    (hroot : t.root.pid = 1) (hf : FileOk cfg t) :
+    ∃ t', reinit cfg (encode t) = some t' ∧ TreeInv cfg t' ∧ PidInv t' ∧ t'.root.pid = 1 ∧
+      (∀ k v, setKeyPanic k = false →
+        TreeInv cfg (set cfg t' k v) ∧ PidInv (set cfg t' k v) ∧
+        ∀ k', getKeyPanic k' = false → get (set cfg t' k v) k' = if k' = k then some v else get t k') := by
+  have hinv' : TreeInv cfg (reopened t) := ⟨hinv.root_inner, hinv.ok, rfl⟩
+  have hp' : PidInv (reopened t) := ⟨hp.1, hp.2⟩
+  refine ⟨_, (c16_roundtrip cfg hc t hinv hp hroot hf).1, hinv', hp', hroot, ?_⟩
+  · intro k v hk
+    obtain ⟨s1, s2, s3⟩ := set_spec hc _ k v hinv' hk
+    refine ⟨s1, hp'.step s3, ?_⟩
+    intro k' hk'
+    rw [get_spec hc _ s1 k' hk', get_spec hc t hinv k' hk']
+    unfold abs
+    rw [s2, lookupD_ins]
+    split <;> rfl
+
+/-! ## non-vacuity: a concrete tree with recycled pages, evaluated by the kernel -/
 
 def cfg80 : Cfg := Cfg.ofPageSize 80
 
@@ -21,11 +90,14 @@ def sample : Tree :=
   deleteBelow ((List.range 12).foldl (fun t k => set cfg80 t (w (k + 1)) (w (10 * (k + 1)))) tinyFile) 95#64
 
 /-- Concrete round trip (kernel-evaluated): reopening the sample tree gives back the same
-labelled tree, frontier, free list (head and order) and statistics. -/
+labelled tree, frontier, free list (head and order) and statistics; the hypotheses of
+`c16_roundtrip` that are decidable hold for it. -/
 theorem c16_roundtrip_sample :
     (reinit cfg80 (encode sample)).map (fun t => (walk t, t.a.nextPage, t.a.free, t.a.leafKeys, t.a.pagesFree))
       = some (walk sample, sample.a.nextPage, sample.a.free, sample.a.leafKeys, sample.a.pagesFree)
-    ∧ sample.a.free = [4, 2] := by
+    ∧ sample.a.free = [4, 2] ∧ sample.root.pid = 1
+    ∧ sample.a.leafKeys = countLeafKeys sample.root ∧ sample.a.pagesFree = sample.a.free.length
+    ∧ sample.a.nextPage * cfg80.pageSize ≤ sample.a.curSz - 8 := by
   decide +kernel
 
 end RV.C16
